@@ -309,7 +309,7 @@ func (pb *parserBatch) runMatrices(ctx *Ctx, res *Result) (map[string][][]int, b
 		if sc.Auto == nil {
 			continue
 		}
-		for _, u := range sc.Units {
+		for _, u := range sc.sortedUnits() {
 			if u.GenErr != "" || u.CompErr != "" {
 				continue
 			}
